@@ -194,8 +194,38 @@ class Func:
                 return i
         return None
 
-    def calls(self):
+    def dead_ids(self):
+        """ids of AST nodes under branches whose condition clang folds to a constant (e.g. `if (PRNH)` with
+        `static const int PRNH = 0`): such code never executes and is ignored by call-graph and effect rules."""
+        if getattr(self, "_dead", None) is None:
+            dead = set()
+            for n in self.nodes():
+                if n["k"] == "IfStmt" and n.get("cond") is not None:
+                    v = const_value(n["cond"])
+                    if v is not None:
+                        br = n.get("then") if v == 0 else n.get("else")
+                        if br is not None:
+                            for x in walk(br):
+                                if "id" in x:
+                                    dead.add(x["id"])
+                elif n["k"] == "WhileStmt" and n.get("cond") is not None and const_value(n["cond"]) == 0:
+                    for x in walk(n["body"]):
+                        if "id" in x:
+                            dead.add(x["id"])
+            self._dead = dead
+        return self._dead
+
+    def live_nodes(self):
+        dead = self.dead_ids()
+        if not dead:
+            yield from self.nodes()
+            return
         for n in self.nodes():
+            if n.get("id") not in dead:
+                yield n
+
+    def calls(self):
+        for n in self.live_nodes():
             if n["k"] in ("CallExpr", "CXXMemberCallExpr", "CXXOperatorCallExpr", "CXXConstructExpr", "CXXTemporaryObjectExpr"):
                 yield n
 
@@ -489,7 +519,7 @@ class DB:
 
     def callees(self, func, refine=None, with_dtors=True):
         out = []
-        for n in func.nodes():
+        for n in func.live_nodes():
             k = n["k"]
             if k in ("CallExpr", "CXXMemberCallExpr", "CXXOperatorCallExpr", "CXXConstructExpr", "CXXTemporaryObjectExpr"):
                 for t in self.call_targets(func, n, refine):
@@ -541,10 +571,10 @@ class DB:
                     work.append(t)
         return seen
 
-    def rta(self, roots):
+    def rta(self, roots, inst0=()):
         """Rapid type analysis: (reachable function ids, instantiated records). Virtual calls are resolved
         against the classes instantiated in the reachable part of the program only."""
-        reach, inst = {}, set()
+        reach, inst = {}, set(inst0)
         work = []
         pending = []   # (caller fid, node, candidate ids) virtual calls waiting for instantiations
 
@@ -571,9 +601,7 @@ class DB:
             while work:
                 fid = work.pop()
                 f = self.funcs[fid]
-                if f.is_ctor and f.rec:
-                    pass
-                for n in f.nodes():
+                for n in f.live_nodes():
                     k = n["k"]
                     if k in ("CXXConstructExpr", "CXXTemporaryObjectExpr"):
                         if n.get("rec"):
